@@ -24,12 +24,12 @@ import rewrites
 from common import Check, run_tlc, run_oalv_parallel
 
 
-def variants_of(prog, rng, tier):
+def variants_of(prog, rng, tier, all_perms=False):
     """(rewrite name, program, render options)"""
     out = []
     for st in (1, 2, 3):
         out.append(("trivia-style-%d" % st, prog, {"style": st}))
-    for q in progs.permutations_of(prog, limit=3, rng=rng)[:2]:
+    for q in (progs.permutations_of(prog, limit=30, rng=rng) if all_perms else progs.permutations_of(prog, limit=3, rng=rng)[:2]):
         out.append(("permute-declarations", q, {}))
     out.append(("rename-consistently", progs.rename_consistently(prog), {}))
     for q in rewrites.alpha_rename_each(prog)[:4 if tier == "quick" else 12]:
@@ -120,13 +120,15 @@ def run(tier):
     nsel = 120 if tier == "quick" else 1200
     sel = members if len(members) <= nsel else rng.sample(members, nsel)
     nann = 60 if tier == "quick" else 600
-    sel = sel + (annots if len(annots) <= nann else rng.sample(annots, nann)) + extra
+    directed = [c for c in annots if c["pos"] == "recann"]          # always, with every order of their statements
+    rest = [c for c in annots if c["pos"] != "recann"]
+    sel = sel + directed + (rest if len(rest) <= nann else rng.sample(rest, nann)) + extra
     cases = []
     meta = []
     for c in sel:
         cases.append(case_of(c["prog"], {}))
         meta.append((c, "original", None))
-        for name, q, opts in variants_of(c["prog"], rng, tier):
+        for name, q, opts in variants_of(c["prog"], rng, tier, all_perms=(c.get("pos") == "recann")):
             cases.append(case_of(q, opts))
             meta.append((c, name, None))
     for key, cs in groups.items():
